@@ -52,6 +52,20 @@ THEOREMS = [
     'Nb.C14.solo_lockedWhole',
     'Nb.C14.nibabel_reads_correct',
     'Nb.C14.copy_shares_lock',
+    'Nb.C14.pinv_step',
+    'Nb.C14.progress',
+    'Nb.C14.no_deadlock',
+    'Nb.C14.fair_completes',
+    'Nb.C14.all_threads_complete',
+    'Nb.C14.round_robin_completes',
+    'Nb.C14.fair_run_correct',
+    'Nb.C14.good_pieces',
+    'Nb.C14.nibabel_all_complete',
+    'Nb.C14.results_eq_single_threaded',
+    'Nb.C14.slicedJob_plan',
+    'Nb.C14.sliced_result_eq_numpy_partial',
+    'Nb.C14.thread_results_eq_numpy_partial',
+    'Nb.C14.reshape_new_lock_counterexample',
     'Nb.C14.no_lock_counterexample',
     'Nb.C14.split_lock_counterexample',
     'Nb.C14.copy_new_lock_counterexample',
@@ -70,7 +84,12 @@ ASSUMPTIONS = [
     'of a successfully memory-mapped real file are taken from the file contents (OS mmap contract)',
     'segments of a sliced read come from the C06 model (calcSlicedefs with the default threshold heuristic); '
     'NumPy basic indexing is the reference for the expected per-thread result',
-    'ArrayProxy.reshape creates a new lock over the same handle: outside the property (copy() only), not checked',
+    'ArrayProxy.reshape creates a new lock over the same handle: outside the property (copy() only), not checked '
+    'on the real code; recorded as the observation theorem reshape_new_lock_counterexample (not safe)',
+    'end-to-end theorems (*_partial): the byte layer — that the file stores element q little-endian at '
+    'off+isz*q and decodeLE reads it back, i.e. hypotheses SReq.OK.hbytes/hdec — is assumed (checked by `decide` '
+    'on the example and by the correspondence stream on every case); whole-array requests are covered up to '
+    '"result = decoder(single-threaded bytes)" (results_eq_single_threaded), not composed with NumPy',
 ]
 RULE = ('cases = (scenario in {proxy over open BytesIO handle, reads through it and through its copy(), '
         'keep_file_open=True proxy on a real file} x mmap in {True,False} x array layout x per-thread read lists '
